@@ -1,7 +1,8 @@
 """C03 - Love numbers are invariant under representation changes; Saito-Molodensky reciprocity.
 
 Metamorphic relations between *pairs of solver runs* on one generated multi-layer planet
-(rs_common.stack_strategy, 1-4 layers, solid surface layer: h and l are undefined - NaN - on a liquid surface), restricted - as the property's
+(rs_common.stack_strategy, 1-4 layers; solid or static-liquid surface layer - on a liquid surface only k is compared, h and l are
+undefined there and returned as NaN), restricted - as the property's
 quantifier says - to numerically converged solves: the base solve (DOP853/RK45 at rtol 10^[-9,-7.5]) is
 repeated with a 100x tighter tolerance and the case is discarded (counted) when
 delta = max|love - love_tight| > 1e-6 or either solve is unsuccessful.
@@ -53,7 +54,7 @@ TIGHT = 100.0
 
 
 def strategy(tier):
-    base = rc.stack_strategy(1, 4, surface='solid', freq_log=(-5.5, -3.0), solve_for_max=4)
+    base = rc.stack_strategy(1, 4, surface='no_dynamic_liquid', freq_log=(-5.5, -3.0), solve_for_max=4)
     return st.tuples(base, st.floats(-2.0, 2.0), st.sampled_from(['RK45', 'DOP853', 'RK23'])).map(
         lambda t: dict(t[0], loga=t[1], alt_method=t[2]))
 
@@ -80,7 +81,7 @@ def fixed_cases(tier):
 
 
 def required_labels(tier):
-    return ['R1', 'R2', 'R3', 'R4', 'R5', 'R6', 'layers:2+', 'has_liquid']
+    return ['R1', 'R2', 'R3', 'R4', 'R5', 'R6', 'layers:2+', 'has_liquid', 'static_liquid_surface']
 
 
 def _refine(A):
@@ -136,11 +137,13 @@ def evaluate(case):
     if not (s0.success and s0t.success):
         return discard('solver_failed', labels)
     L0 = _love(s0)[0]
-    delta = float(np.max(np.abs(L0 - _love(s0t)[0])))
-    if not np.isfinite(delta) or delta > 1e-6 or not np.all(np.isfinite(L0[0:1])):
-        return discard('unconverged', labels)
     static_liquid_surface = ks[-1][0] == 'liquid'
     comp = slice(0, 1) if static_liquid_surface else slice(0, 3)     # h, l are undefined (NaN) on a liquid surface
+    delta = float(np.max(np.abs(L0[comp] - _love(s0t)[0][comp])))
+    if not np.isfinite(delta) or delta > 1e-6 or not np.all(np.isfinite(L0[comp])):
+        return discard('unconverged', labels)
+    if static_liquid_surface:
+        labels.append('static_liquid_surface')
     tol = TOL0 + 100.0 * delta
     c = Collector(labels, nontrivial=len(ks) >= 2)
 
